@@ -472,7 +472,7 @@ func Run(tier, replay string) {
 	// (T) seeded random (width, value) pairs up to i4096.
 	n := 2500
 	if tier == "thorough" {
-		n = 20000
+		n = 12000
 	}
 	wide := 0
 	for i := 0; i < n; i++ {
